@@ -102,6 +102,20 @@ func windowStrat(rng *hx.Rng) func(int, []*sched.Thread, *sched.Thread) int {
 	}
 }
 
+// let the closer run whenever it can (the sender is starved while Close polls): reaches the end of the grace period
+func closerFirstStrat(rng *hx.Rng) func(int, []*sched.Thread, *sched.Thread) int {
+	return func(_ int, en []*sched.Thread, last *sched.Thread) int {
+		if !rng.Chance(5) {
+			for k, t := range en {
+				if t.Name == "closer" && strings.HasPrefix(t.Point, "c.") {
+					return k
+				}
+			}
+		}
+		return rng.Intn(len(en))
+	}
+}
+
 func replayStrat(picks []int) func(int, []*sched.Thread, *sched.Thread) int {
 	return func(step int, en []*sched.Thread, _ *sched.Thread) int {
 		if step < len(picks) && picks[step] < len(en) {
@@ -261,6 +275,14 @@ func explore(args hx.Args, meta *hx.Meta) {
 	for i := 0; i < nrand; i++ {
 		c := genCfg(rng, prop, meta)
 		var strat func(int, []*sched.Thread, *sched.Thread) int
+		if (prop == "C06" || prop == "C05") && i%5 == 4 && len(c.Closers) > 0 && !c.Until {
+			c.Starve = true
+			c.Strat, strat = "closer-first", closerFirstStrat(rng)
+			meta.Count("strategy", c.Strat)
+			o := runCfg(c, strat)
+			emit(c, o)
+			continue
+		}
 		switch i % 3 {
 		case 0:
 			c.Strat, strat = "random", randomStrat(rng)
